@@ -337,6 +337,7 @@ Proof.
   destruct (negb (is_file_exists _)); [discriminate|].
   destruct (Nat.eqb p c'); [discriminate|].
   destruct (negb (perm_on _ _ _ _)); [discriminate|].
+  destruct (sticky_refuses _ _ _ _); [discriminate|].
   assert (Hfin : forall part, get (delete_node (remove_child (f_heap s) p part) c') c = Some (NFile d k i m)
                  \/ get (delete_node (remove_child (f_heap s) p part) c') c =
                     Some (NFile d (k - 1) i m)).
